@@ -398,7 +398,51 @@ def disagreement_task(item):
         pkg.close()
 
 
+def isolated_default_task(item):
+    """One default in a namespace of its own: nothing else in the module can bring in what the default needs (imports, helpers)."""
+    _, t, lit, how = item
+    tt = render.texpr(t)
+    if how == 'direct':
+        specs = [('iso.stone', 'namespace iso\n\nstruct H\n    f %s = %s\n' % (tt, render.lit(lit)))]
+    elif how == 'local-alias':
+        specs = [('iso.stone', 'namespace iso\n\nalias Al = %s\n\nstruct H\n    f Al = %s\n' % (tt, render.lit(lit)))]
+    elif how == 'imported-alias':
+        specs = [('far.stone', 'namespace far\n\nalias Al = %s\n' % tt), ('iso.stone', 'namespace iso\n\nimport far\n\nstruct H\n    f far.Al = %s\n' % render.lit(lit))]
+    else:
+        specs = [('far.stone', 'namespace far\n\nalias Al = %s\n' % tt), ('mid.stone', 'namespace mid\n\nimport far\n\nalias Am = far.Al\n'),
+                 ('iso.stone', 'namespace iso\n\nimport mid\n\nstruct H\n    f mid.Am = %s\n' % render.lit(lit))]
+    inputs = {'specs': specs, 'type': tt, 'default': repr(lit), 'how': how}
+    out = impl.compile_specs(specs)
+    if out.kind != 'ok':
+        return {'outcome': 'isolated:not-accepted', 'viol': [], 'n': 1}
+    pkg, fail = impl.build_python_package(out.api)
+    if pkg is None:
+        return {'outcome': 'isolated:generate-failed', 'viol': [viol('isolated-default:generate:%s:%s' % (t.kind, how), 'python_types fails: %s' % fail.identity, inputs, fail.tb)], 'n': 1}
+    try:
+        try:
+            got = pkg.mod('iso').H().f
+        except Exception as e:  # noqa
+            return {'outcome': 'isolated:raised', 'viol': [viol('isolated-default:%s:%s:%s' % (type(e).__name__, t.kind, how),
+                                                                'module with the single default %s %s = %s: %s: %s' % (how, tt, render.lit(lit), type(e).__name__, str(e)[:200]), inputs)], 'n': 1}
+        if t.kind in ('Float32', 'Float64'):
+            exp = float(lit)
+        elif t.kind == 'Bytes':
+            exp = lit.encode('utf-8')
+        elif t.kind == 'Timestamp':
+            import datetime
+            exp = datetime.datetime.strptime(lit, dict(t.args)[''])
+        else:
+            exp = lit
+        if got != exp or type(got) is not type(exp):
+            return {'outcome': 'isolated:differs', 'viol': [viol('isolated-default:value:%s:%s' % (t.kind, how), 'unset field reads %r, declared default %r' % (got, exp), inputs)], 'n': 1}
+    finally:
+        pkg.close()
+    return {'outcome': 'isolated:same', 'viol': [], 'n': 1}
+
+
 def task(item):
+    if item[0] == 'isolated':
+        return isolated_default_task(item)
     if item[0] == 'defaults':
         return defaults_task(item)
     if item[0] == 'disagree':
@@ -422,6 +466,17 @@ def run(tier, seed):
                 items.append(('disagree', t, v, via_alias))
                 nbad += 1
     r.bounds['invalid_literals_checked_for_compiler_runtime_agreement'] = nbad
+    niso = 0
+    seen_kinds = set()
+    for t in paramspace.valid_param_types('thorough'):
+        lits = list(valid_literals(t))
+        if not lits or (t.kind in seen_kinds and tier == 'quick'):
+            continue
+        seen_kinds.add(t.kind)
+        for how in ('direct', 'local-alias', 'imported-alias', 'alias-chain-over-three-namespaces'):
+            items.append(('isolated', t, lits[0], how))
+            niso += 1
+    r.bounds['isolated_defaults'] = niso
     budget = 1200 if tier == 'quick' else 4000
     seen = set()
     nmodels = 0
